@@ -264,3 +264,42 @@ def write_evidence(prop, ev):
     d = os.path.join(VERIF, "evidence")
     os.makedirs(d, exist_ok=True)
     json.dump(ev, open(os.path.join(d, f"{prop}.json"), "w"), indent=1)
+
+
+# ---------------------------------------------------------------- C19: concurrent run under the race detector
+
+CONC_DOMAINS = ["codec-dec", "codec-enc", "security", "secapi", "acc", "conv14", "conv12", "conv13", "qos", "uepolicy", "counter", "idgen", "pco", "conv17"]
+
+
+def build_race_harness():
+    tools = os.path.join(VERIF, "tools")
+    out = os.path.join(BUILD, "harness-race")
+    if os.path.exists(out):
+        os.remove(out)
+    env = dict(GOENV, CGO_ENABLED="1")
+    rc, o = sh(["go", "build", "-race", "-tags", "verif", "-o", out, "./harness"], cwd=tools, env=env, timeout=900)
+    return rc == 0, o
+
+
+def run_conc(seed, per_domain, goroutines=64, timeout=3000):
+    """generate a mix of ops, run them sequentially and from `goroutines` goroutines under -race.
+    returns (ok, summary line, race report or mismatch text, number of ops, ops file path)"""
+    ops = os.path.join(BUILD, f"ops-conc-{seed}.txt")
+    with open(ops, "w") as f:
+        for d in CONC_DOMAINS:
+            p = subprocess.run([os.path.join(BUILD, "harness"), "gen", d, "-seed", str(seed), "-n", "60", "-tier", "quick", "-facts", FACTS],
+                               stdout=subprocess.PIPE, stderr=subprocess.PIPE, text=True)
+            lines = p.stdout.splitlines()
+            # a deterministic spread over the stream, not just its head
+            step = max(1, len(lines) // per_domain)
+            f.write("\n".join(lines[::step][:per_domain]) + "\n")
+    n = sum(1 for _ in open(ops))
+    env = dict(os.environ, GORACE="halt_on_error=1 exitcode=66", GOMEMLIMIT="8GiB")
+    with open(ops) as i:
+        p = subprocess.run([os.path.join(BUILD, "harness-race"), "conc", "-g", str(goroutines)], stdin=i, stdout=subprocess.PIPE,
+                           stderr=subprocess.PIPE, text=True, timeout=timeout, env=env)
+    summary = (p.stdout.strip().splitlines() or [""])[0]
+    detail = ""
+    if p.returncode != 0:
+        detail = (p.stderr[:3000] if "DATA RACE" in p.stderr else (p.stdout + p.stderr)[:3000])
+    return p.returncode == 0, summary, detail, n, ops
